@@ -179,6 +179,11 @@ def main():
             if mg != want:
                 R.violation("correspondence", "regex model disagrees with Python's re: pattern set %s on %r: model %s, re %s" % ([p.get("re", p.get("str")) for p in u["pats"]], nm, mg, want),
                             {"user": u, "name": nm}, key={"kind": "regex-model"}, no_input=True)
+    for label, (got, want) in sorted(out.get("family", {}).items()):
+        ntrip += 1
+        if got != want:
+            R.violation("property", "user categories defined from one list that grows between the class statements (Half: ['float16']; then 'float32' appended; then Wider): %s is %s, by the documented rule (the names the category was defined with) it is %s" % (label, got, want),
+                        {"family_check": label, "got": got, "expected": want}, key={"kind": "user-category-family", "check": label})
     for u in xusers:
         comp = [re.compile(p["re"], p.get("flags", 0)) if "re" in p else p["str"] for p in u["pats"]]
         for r in duck:
